@@ -68,6 +68,24 @@ def evaluate(case, out):
     if any(m.phantom for m in mvrs):
         feats.add("unfindable")
     differs = False
+    pre = len(cvrs) % 4 == 3
+    if pre:
+        # every assertion was created with the same (empty) dict as its batch means, and margins and batch means of ALL
+        # assertions are computed up front, as the pipeline does; then each assertion is scored
+        shared = {}
+        try:
+            for con in contests.values():
+                for a in con.assertions.values():
+                    a.assorter.tally_pool_means = shared
+            for con in contests.values():
+                for a in con.assertions.values():
+                    if con.audit_type == "ONEAUDIT":
+                        a.assorter.set_tally_pool_means(cvr_list=cvrs, use_style=us)
+                    a.set_margin_from_cvrs(audit, cvrs)
+        except Exception as e:  # noqa
+            out.lib_exception("setup-all-assertions-first", e)
+            return
+        feats.add("all-assertions-set-up-first(shared-initial-dict)")
     for cid, con in contests.items():
         out.cls(case["contests"][cid]["kind"], con.audit_type)
         pop = [i for i, c in enumerate(cvrs) if (c.has_contest(cid) or not us)]
@@ -76,7 +94,9 @@ def evaluate(case, out):
             continue
         for key, a in con.assertions.items():
             try:
-                if len(cvrs) % 2 == 0:
+                if pre:
+                    pass
+                elif len(cvrs) % 2 == 0:
                     # a planning pass on a preliminary list (no phantoms yet, only the first cards), then the real one:
                     # margins and pool means must be those of the final list
                     prelim = [c for c in cvrs if not c.phantom][: max(1, len(cvrs) // 2)]
@@ -88,7 +108,9 @@ def evaluate(case, out):
                             feats.add("preliminary-pass-first")
                         except Exception:  # noqa  (the preliminary list may not contain the contest at all)
                             pass
-                if len(cvrs) % 4 == 0:
+                if pre:
+                    pass   # (everything was set up before the first assertion was scored)
+                elif len(cvrs) % 4 == 0:
                     # margin first, batch means afterwards: the margin of a CVR list does not depend on whether (stale)
                     # batch means happen to be stored
                     a.set_margin_from_cvrs(audit, cvrs)
